@@ -87,6 +87,19 @@ def batch_scenarios(tier, seed, twin):
                 tops = [dict(id="e%d" % j, kind="att", ents=[e]) for j, e in enumerate(ents)]
                 scs.append(dict(id=tid, world=dict(nkeys=nkeys), conc=conc, gomaxprocs=p, prior=prior, ops=tops))
                 meta[sid]["twin"] = tid
+    if twin:
+        # FIRST USE AFTER START: the unlocker is configured with two account passphrases, the one that fits is the SECOND; the accounts
+        # have not been used since the instance started (still locked), so every entry's signing begins with its account being opened
+        # - side by side in the batch's workers.  Each of these worlds is used by one scenario only (a fresh instance).
+        for fi, p in enumerate((2, 5, 8, 16) if tier == "quick" else (2, 3, 4, 5, 8, 16, 2, 5, 8, 16)):
+            keys = list(range(16))
+            ents = [dict(k=key, s=1, t=2 + (j % 3), root="F%d" % (j % 4), troot="T%d" % j, by=("name", "key")[j % 2]) for j, key in enumerate(keys)]
+            sid = "B-firstuse-%d-p%d" % (fi, p)
+            w_ = dict(nkeys=16, unlocker_passphrases=["not-this-one-%d" % fi, "pass"])
+            scs.append(dict(id=sid, world=w_, conc=conc, gomaxprocs=p, prior=[], ops=[dict(id="batch", kind="atts", ents=ents)]))
+            meta[sid] = dict(size=16, p=p, twin=sid + "-twin")
+            scs.append(dict(id=sid + "-twin", world=dict(w_, unlocker_passphrases=["not-this-one-%d-twin" % fi, "pass"]), conc=conc, gomaxprocs=p, prior=[],
+                            ops=[dict(id="e%d" % j, kind="att", ents=[e]) for j, e in enumerate(ents)]))
     # sustained load on the generic batch endpoint: many 64-entry batches at full parallelism (a worker that leaks state into
     # its neighbours - a shared variable, a reused buffer - shows up only under real contention, a fraction of a percent per entry)
     nsoak = 150 if tier == "quick" else 1500
